@@ -130,15 +130,81 @@ fn write_crate(name: &str, src: &str) {
     write_if_changed_pub(&dir.join("src/main.rs"), src);
 }
 
+/// Receivers of unusual shapes (empty bodies, empty braced variants, all-skipped members,
+/// flatten-only bodies, skipped multi-field tuple variants ...) x member options. Only the
+/// declarations the derive accepts (no `compile_error!` in its output) are written out: those
+/// must compile.
+fn shapes_src() -> (String, usize) {
+    let inner = "#[derive(Default, darling::FromMeta)] pub struct Inner { #[darling(default)] pub q: u32 }\n";
+    let mut cands: Vec<(usize, String)> = vec![]; // (derive index, item source without derive attr)
+    // FromMeta enums: every pair of variant forms
+    let vforms = [
+        "A", "#[darling(rename = \"z\")] A", "#[darling(word)] A", "#[darling(skip)] A", "A(u32)", "#[darling(skip)] A(u32)", "#[darling(skip)] A(u32, u32)", "A {}", "#[darling(skip)] A {}",
+        "#[darling(rename = \"z\")] A {}", "A { x: u32 }", "A { #[darling(skip)] x: u32 }", "A { #[darling(flatten)] f: super::Inner }", "A { #[darling(flatten)] f: super::Inner, #[darling(skip)] s: u32 }",
+        "A { #[darling(multiple)] m: Vec<u32>, #[darling(default)] d: u32 }", "A(super::Inner)", "A { r#type: u32 }",
+    ];
+    for (i, a) in vforms.iter().enumerate() {
+        cands.push((0, format!("pub enum E {{ {a} }}")));
+        for b in vforms.iter().skip(i % 3).step_by(3) {
+            let b = b.replace("A", "B").replace("\"z\"", "\"y\"");
+            cands.push((0, format!("pub enum E {{ {a}, {b} }}")));
+            cands.push((0, format!("#[darling(rename_all = \"camelCase\")] pub enum E {{ {b}, {a} }}")));
+        }
+    }
+    // struct bodies for every trait
+    let bodies = [
+        "{}", ";", "(u32);", "(super::Inner);", "();", "(u32, u32);", "(#[darling(skip)] u32);", "{ #[darling(skip)] a: u32 }", "{ #[darling(flatten)] f: super::Inner }", "{ #[darling(flatten)] f: super::Inner, #[darling(skip)] s: u32 }",
+        "{ #[darling(skip)] s: u32, #[darling(flatten)] f: super::Inner }", "{ #[darling(multiple)] m: Vec<u32> }", "{ #[darling(multiple, default)] m: Vec<u32>, #[darling(skip)] s: Vec<u32> }",
+        "{ r#type: u32, r#fn: Option<u32> }", "{ #[darling(skip, default = \"super::seven\")] a: u32, b: u32 }", "{ #[darling(skip = false)] a: u32 }",
+    ];
+    for b in bodies {
+        // a newtype on FromDeriveInput / FromAttributes delegates to the inner type, which must
+        // implement the trait itself: use a receiver of the same trait as the inner type
+        cands.push((0, format!("pub struct S {b}")));
+        cands.push((0, format!("#[darling(default)] pub struct S {b}")));
+        cands.push((0, format!("#[darling(allow_unknown_fields)] pub struct S {b}")));
+        for d in 1..6 {
+            let b = if d == 1 || d == 5 { b.replace("(u32);", "(super::Same);").replace("(super::Inner);", "(super::Same);").replace("(#[darling(skip)] u32);", "(#[darling(skip)] super::Same);") } else { b.to_string() };
+            cands.push((d, format!("#[darling(attributes(a))] pub struct S {b}")));
+            cands.push((d, format!("#[darling(attributes(a), forward_attrs(doc))] pub struct S {b}")));
+        }
+    }
+    let names = ["FromMeta", "FromDeriveInput", "FromField", "FromVariant", "FromTypeParam", "FromAttributes"];
+    let mut src = String::from("#![allow(dead_code, non_camel_case_types, unused)]\n");
+    src.push_str(inner);
+    src.push_str("pub fn seven() -> u32 { 7 }\n");
+    src.push_str("#[derive(darling::FromDeriveInput, darling::FromAttributes)] #[darling(attributes(a))] pub struct Same { #[darling(default)] pub q: u32 }\n");
+    let mut n = 0;
+    for (d, item) in cands {
+        let Ok(di) = syn::parse_str::<syn::DeriveInput>(&item) else { continue };
+        // `#[darling(default)]` needs Default: add the derive when the body allows it
+        let wants_default = item.contains("#[darling(default)] pub struct");
+        let out = match vrt::catch(std::panic::AssertUnwindSafe(|| (crate::c06::DERIVES[d].1)(&di).to_string())) {
+            Ok(o) => o,
+            Err(_) => continue, // C06 reports panics
+        };
+        if out.contains("compile_error") {
+            continue; // not an accepted declaration
+        }
+        let extra = if wants_default { ", Default" } else { "" };
+        src.push_str(&format!("mod m{n} {{ #[derive(darling::{}{extra})] {item} }}\n", names[d]));
+        n += 1;
+    }
+    src.push_str("fn main() {}\n");
+    (src, n)
+}
+
 pub fn generate_c20() -> (Vec<String>, Vec<String>) {
     write_crate("c20_generic", &generic_src());
+    let (shapes, _n) = shapes_src();
+    write_crate("c20_shapes", &shapes);
     let mut neg = vec![];
     for (pos, src) in NEGATIVES {
         let n = format!("c20_neg_{pos}");
         write_crate(&n, src);
         neg.push(n);
     }
-    (vec!["c20_generic".to_string()], neg)
+    (vec!["c20_generic".to_string(), "c20_shapes".to_string()], neg)
 }
 
 fn rustc_errors(stderr: &str) -> Vec<(String, String)> {
@@ -208,6 +274,36 @@ pub fn main(args: &Args) {
                 }
             }
         }
+    }
+    // the same for a build of darling WITHOUT the `suggestions` feature (a separate cargo
+    // invocation, otherwise feature unification switches it on): the suggestion corpus (flatten
+    // chains, enums, struct variants with flatten members) and struct-corpus shards
+    {
+        let mut off_pkgs = generate(&sugg_corpus(false));
+        let mut so = struct_corpus(Tier::Quick);
+        so.name = "struct_off".into();
+        so.suggestions = false;
+        let sp = generate(&so);
+        let take = if args.tier == Tier::Thorough { sp.len() } else { 2 };
+        off_pkgs.extend(sp.into_iter().take(take));
+        n_receivers += 13;
+        rep.set("crates_built_without_suggestions", json!(off_pkgs.len()));
+        if build(&off_pkgs).is_err() {
+            for p in &off_pkgs {
+                if let Err(e) = build(std::slice::from_ref(p)) {
+                    failed_pkgs += 1;
+                    let errs = rustc_errors(&e);
+                    let first = errs.first().cloned().unwrap_or(("build failed".into(), e.chars().take(1500).collect()));
+                    rep.tally.violate(Violation {
+                        key: format!("C20 crate={p} (suggestions off) :: {}", first.0),
+                        what: format!("generated receivers in `{p}` do not compile when darling is built without the `suggestions` feature: {} ({} rustc errors)", first.0, errs.len()),
+                        case: json!({"engine": "rustc", "crate": p, "features": "no suggestions"}),
+                        detail: json!({"diagnostics": errs.iter().take(10).map(|e| e.1.clone()).collect::<Vec<_>>() }),
+                    });
+                }
+            }
+        }
+        rep.tally.evaluations += off_pkgs.len() as u64;
     }
     // negative: capturing closures must be rejected at each callable position
     for n in &neg {
